@@ -46,46 +46,52 @@ from orquesta.utils import parameters as args_util  # noqa: E402
 THEOREMS = [
     {"name": "C15_undefined_sound", "strength": "F",
      "text": "detect_undefined_tasks sp fuel = Val l -> every entry of l is SE_undefined t i d with t reachable from a "
-             "start task, d a target of transition i of t, d neither a declared task nor an engine command"},
+             "start task (C14's reach), d a target of transition i of t, d neither a declared task nor an engine command"},
     {"name": "C15_undefined_reported", "strength": "F",
-     "text": "detect_undefined_tasks sp fuel = Val l -> reach sp t -> (d, w, i) a triple of t -> d not declared, not an "
-             "engine command -> SE_undefined t i d in l (conditional on the fuel sufficing, no hypothesis on names)"},
+     "text": "detect_undefined_tasks sp fuel = Val l -> reach sp t -> (d, w, i) a triple of t -> d not declared and not "
+             "an engine command -> SE_undefined t i d in l, spec_path tasks.<t>.next[<i>].do (conditional on Val; no "
+             "hypothesis on the names)"},
     {"name": "C15_undefined_total", "strength": "F",
-     "text": "task names unique -> length (wf_tasks sp) < fuel -> detect_undefined_tasks sp fuel returns Val (no "
-             "KeyError, the fuel suffices: every task is dequeued at most once)"},
-    {"name": "C15_undefined_count", "strength": "F",
-     "text": "task names unique -> ... = Val l -> the number of entries for (t, i, d) equals the number of "
-             "occurrences of d in transition i of t (one entry per occurrence, none lost, none repeated)"},
+     "text": "task names unique -> number of declared tasks <= fuel -> detect_undefined_tasks sp fuel returns Val: no "
+             "KeyError, the fuel suffices (every task is dequeued at most once)"},
     {"name": "C15_reserved_reported", "strength": "F",
-     "text": "SE_reserved t in detect_reserved_names sp <-> t declared and t an engine command; nothing else in it"},
+     "text": "e in detect_reserved_names sp <-> e = SE_reserved t with t declared and t an engine command"},
     {"name": "C15_no_start_reported", "strength": "F",
-     "text": "SE_no_start in detect_start_tasks sp <-> task list non-empty and no declared task without inbound "
-             "transition; nothing else in it"},
+     "text": "SE_no_start in detect_start_tasks sp <-> task list non-empty and every declared task has an inbound "
+             "transition; the detector reports nothing else"},
     {"name": "C15_actionless_items_reported", "strength": "F",
-     "text": "SE_actionless t in detect_actionless_with_items sp <-> some declaration of t has with-items and a "
-             "falsy action; nothing else in it"},
-    {"name": "C15_semantics_accepts_iff", "strength": "F",
-     "text": "inspect_semantics sp fuel = Val [] -> no reserved name, a start task exists (or no tasks), every "
-             "reachable target is declared or a command, no actionless with-items task"},
-    {"name": "C15_context_straight_line_partial", "strength": "P",
-     "text": "for one spec object with plain properties (workflow input/vars/output, the properties of a task, of a "
-             "with/retry spec, of a transition): CE_unassigned p v is reported <-> v is referenced at a position p "
-             "and is neither in the incoming context nor assigned by an earlier position of an assigning property. "
-             "PARTIAL: the worklist over the task graph (which contexts reach a task) is modelled and compared but "
-             "not characterised by a theorem"},
+     "text": "e in detect_actionless_with_items sp <-> e = SE_actionless t for a declaration (t, ts) with with-items and a "
+             "falsy action"},
+    {"name": "C15_semantics_accepted", "strength": "F",
+     "text": "inspect_semantics sp fuel = Val [] -> no declared task is named like a command, a start task exists (or "
+             "there is no task), every target of every reachable task is a command or declared, every with-items task "
+             "has an action"},
+    {"name": "C15_context_straight_line_partial / C15_context_assigned_partial", "strength": "P",
+     "text": "for ONE spec object with plain properties (workflow input/vars/output, the properties of a task, of a "
+             "with/retry spec, of a transition) and an incoming context: 'x referenced before assignment' is reported at "
+             "path q <-> a position with path q references x, x is not in the incoming context and no earlier position of "
+             "an assigning property assigns x; the context handed on = incoming + assigned.  PARTIAL: the worklist of "
+             "TaskMappingSpec.inspect_context over the task graph (which contexts reach a task) is modelled and compared "
+             "with the implementation but not characterised by a theorem; the references of a position are an oracle"},
     {"name": "C15_positions_covered", "strength": "F",
-     "text": "facts about the reflected spec metadata: the evaluation sequences of the spec classes contain every "
-             "expression-bearing property (delay, with, action, input, retry, next; items, concurrency; when, count, "
-             "delay; when, publish, do; input, vars, tasks, output) and the four engine commands are reserved"},
+     "text": "facts about the reflected spec metadata (regenerated from /repo on every run): the evaluation sequences are "
+             "exactly [input, vars, tasks, output], [delay, with, action, input, retry, next], [items, concurrency], "
+             "[when, count, delay], [when, publish, do]; input/vars/output and publish assign; the engine commands are the "
+             "four reserved names"},
     {"name": "C15_accepted_composes", "strength": "F",
-     "text": "task names unique -> inspect_semantics sp fuel = Val [] -> sp has a task -> all reachable targets "
-             "defined -> compose's only failure is its fuel (via C14_only_fuel_error on the reachable part: stated for "
-             "targets_defined) ; and C11: no evaluation failure escapes any API call of the conductor model"},
-    {"name": "(tested, not proved) accepted => no internal error", "strength": "T",
+     "text": "task names unique -> inspect_semantics sp fuel = Val [] -> the only failure of compose sp rt f is the fuel "
+             "of its worklist (no KeyError, no in_cycle fuel error): C14's theorem re-proved with 'targets of REACHABLE "
+             "tasks defined', which is what acceptance gives"},
+    {"name": "C15_no_evaluation_failure_escapes", "strength": "F",
+     "text": "C11's containment restated: no expression-evaluation failure escapes any conductor API call, for every "
+             "definition, evaluator, state and operation"},
+    {"name": "(tested, not proved) accepted => no internal error; grammar and unassigned-variable faults reported",
+     "strength": "T",
      "text": "absence of KeyError / IndexError / TypeError / AttributeError / ValueError / InvalidTask* from the "
              "conductor on accepted definitions under conformant histories is TESTED by the monitor of this check, "
              "not proved; grammar validation and the regex extraction of variable references are oracles, tested by "
-             "fault injection at every position"},
+             "fault injection at every inspected position; the unreachable-join detector and the context worklist are "
+             "modelled and compared, without theorems"},
 ]
 TRUSTED_BASE = [
     "Coq 8.16.1 kernel via coqc (full .vo build); vm_compute in the examples and in the generated cases files; no "
@@ -124,9 +130,57 @@ FORMS = ["<% ctx().nope %>", "<% ctx(nope) %>", "<% ctx('nope') %>", "{{ ctx().n
          '<% ctx("nope") %>', '{{ ctx("nope") }}']
 LATE = "zz_late"
 
-# known candidates: confirmed cases in which inspection accepts a fault of a listed class or an accepted definition
-# raises an internal error.  id -> predicate(violation dict) ; exactly those are reported as known.
-KNOWN_CANDIDATES = {}
+# known candidates: confirmed cases in which inspection does not report a fault of a listed class or an accepted
+# definition raises an internal error.  id -> predicate(violation dict); exactly those are reported as known.
+def _kc_inspect_keyerror(v):
+    """inspect() itself raises KeyError(<undefined target>) from tasks.in_cycle: a task with two or more inbound
+    transitions (a split task) leads to an undefined task, and in_cycle walks into the undefined name."""
+    if v.get("kind") != "raised" or v.get("exc") != "KeyError" or "in_cycle" not in (v.get("frames") or []):
+        return False
+    tasks = (v.get("definition") or {}).get("tasks") or {}
+    undefined = set(d for ts in tasks.values() for tr in (ts.get("next") or []) for d in _targets(tr)
+                    if d not in tasks and d not in COMMANDS)
+    return v.get("exc_arg") in undefined
+
+
+def _kc_rerun_inflight(v):
+    """a rerun request naming an execution whose action is still in flight is accepted (not refused): the new
+    record has no status, and the report of the in-flight action then raises KeyError('status')."""
+    return (v.get("kind") == "internal-error" and (v.get("raised") or [None])[0] == "KeyError"
+            and bool(v.get("rerun_of_active_execution")) and bool(v.get("record_without_status")))
+
+
+def _kc_d8(v):
+    """known finding D8 (an accepted rerun re-offers an engine command to the provider): the provider's report
+    for the offered command raises TypeError."""
+    return (v.get("kind") == "internal-error" and (v.get("raised") or [None])[0] == "TypeError"
+            and bool(v.get("d8_trigger")) and v.get("event_task") in COMMANDS)
+
+
+def _kc_items_after_reset(v):
+    """a with-items task was re-staged (retry) while one of its items was still in flight: the staged entry has
+    no item table and the late item report raises KeyError('items')."""
+    return (v.get("kind") == "internal-error" and (v.get("raised") or [None])[0] == "KeyError"
+            and bool(v.get("item_event")) and v.get("staged_entry") is True and v.get("staged_items") is False)
+
+
+def _kc_restart_unstaged(v):
+    """an in-flight action whose record is already completed (it reported canceling/pausing and then paused or
+    pending, which the task machine maps to a completed status) reports a starting status: the conductor takes it
+    for a new cycle iteration, finds no staged entry and raises TypeError."""
+    return (v.get("kind") == "internal-error" and (v.get("raised") or [None])[0] == "TypeError"
+            and v.get("pre_status") in ("succeeded", "failed", "timeout", "abandoned", "canceled")
+            and v.get("event_status") in ("requested", "scheduled", "delayed", "running")
+            and v.get("staged_entry") is False and v.get("event_task") not in COMMANDS)
+
+
+KNOWN_CANDIDATES = {
+    "C15-inspect-keyerror-undefined-after-split": _kc_inspect_keyerror,
+    "C15-rerun-of-inflight-task": _kc_rerun_inflight,
+    "C15-D8-command-offered": _kc_d8,
+    "C15-item-report-after-retry-reset": _kc_items_after_reset,
+    "C15-starting-status-after-completed": _kc_restart_unstaged,
+}
 
 # documented refusals of a conformant call, per operation kind
 REFUSALS = {
@@ -168,9 +222,10 @@ BASE_FAMILIES = ["progs", "progs", "progs", "mixed", "cycles", "commands", "diam
 # --------------------------------------------------- reading the definition independently
 
 def _targets(tr):
+    """targets of a transition; a transition without `do` continues (names the engine command continue)"""
     do = tr.get("do")
     if not do:
-        return []
+        return ["continue"]
     if isinstance(do, str):
         return [x.strip() for x in do.split(",")]
     return list(do)
@@ -352,7 +407,7 @@ def structural_mutants(base):
     # renamed target: every (task, transition, position)
     for t, ts in tasks.items():
         for i, tr in enumerate(ts.get("next") or []):
-            for k, d in enumerate(_targets(tr)):
+            for k, d in enumerate(_targets(tr) if tr.get("do") else []):
                 m = copy.deepcopy(base)
                 _rename_refs(m, d, "zz_undef", only=(t, i, k))
                 out.append((m, {"class": "undefined_target", "position": [t, i, k],
@@ -440,8 +495,7 @@ def expression_positions(base):
             w = with_of(m, t)
             w["items"] = "i in " + e
             m["tasks"][t]["with"] = w
-        if not e_is_block_only():
-            pos.append((p + ".with.items(in)", set_items_in, p + ".with.items", p + ".with.items", t))
+        pos.append((p + ".with.items(in)", set_items_in, p + ".with.items", p + ".with.items", t))
 
         def set_conc(m, e, t=t):
             w = with_of(m, t)
@@ -488,21 +542,57 @@ def expression_positions(base):
     return pos
 
 
-def e_is_block_only():
-    return False
+def weight(definition):
+    """number of (task, transition, target) triples"""
+    return sum(len(_targets(tr)) for ts in definition["tasks"].values() for tr in (ts.get("next") or []))
 
 
-def expression_mutants(base):
+def inspect_cost(definition):
+    """A deterministic proxy of what one inspect() of (a mutant of) this definition costs: the number of
+    tasks.get_task calls it makes (about 5 ms + 0.06 ms per call).  Counted with a temporary wrapper."""
+    from orquesta.specs.native.v1 import models as v1_models
+    calls = [0]
+    orig = v1_models.TaskMappingSpec.get_task
+
+    def counted(self, name):
+        calls[0] += 1
+        return orig(self, name)
+
+    v1_models.TaskMappingSpec.get_task = counted
+    try:
+        try:
+            real_inspect(definition)
+        except Exception:
+            pass
+    finally:
+        v1_models.TaskMappingSpec.get_task = orig
+    return calls[0]
+
+
+def expression_mutants(base, tier, nstruct, calls):
+    """Every position; all broken expressions and all reference forms per position when the definition is cheap to
+    inspect, a rotating selection (always at least one of each) when it is not -- a deterministic function of
+    the definition (cost proxy: inspect_cost)."""
+    positions = expression_positions(base)
+    budget_ms = 7000.0 if tier == "quick" else 60000.0
+    afford = budget_ms / (5.0 + 0.06 * calls) - nstruct
+    per = (1, 1)
+    for cand in ((len(BROKEN), len(FORMS)), (3, 4), (2, 3), (1, 2)):
+        if len(positions) * sum(cand) <= afford:
+            per = cand
+            break
     out = []
-    for label, apply, cpath, epath, task in expression_positions(base):
-        for e in BROKEN:
+    for n, (label, apply, cpath, epath, task) in enumerate(positions):
+        for j in range(per[0]):
+            e = BROKEN[(n * per[0] + j) % len(BROKEN)]
             if label.endswith("(in)") and e.startswith("{%"):
-                continue        # "i in {% .. %}x" does not match the schema pattern of with-items
+                e = BROKEN[0]   # "i in {% .. %}x" does not match the schema pattern of with-items
             m = copy.deepcopy(base)
             apply(m, e)
             out.append((m, {"class": "broken_expression", "position": label, "expr": e, "epath": epath,
                             "cpath": cpath, "task": task}))
-        for e in FORMS:
+        for j in range(per[1]):
+            e = FORMS[(n * per[1] + j) % len(FORMS)]
             m = copy.deepcopy(base)
             apply(m, e)
             out.append((m, {"class": "unassigned_variable", "position": label, "expr": e, "var": "nope",
@@ -741,7 +831,14 @@ def run_coq(chunks, procs=16):
 def judge(definition, fault, want_coq):
     """Real inspection of one definition against the reference, the injected fault and (optionally) the text of
     the Coq case."""
-    spec, rep = real_inspect(definition)
+    try:
+        spec, rep = real_inspect(definition)
+    except Exception as e:
+        frames = [f.name for f in traceback.extract_tb(e.__traceback__)]
+        v = {"what": "inspect() of a schema-conformant definition raised %s instead of reporting" % type(e).__name__,
+             "kind": "raised", "exc": type(e).__name__, "exc_arg": (str(e.args[0]) if e.args else ""),
+             "frames": frames[-6:]}
+        return [v], {"raised": True}, None
     vs, ref = check_reference(definition, rep)
     if fault:
         vs += check_fault(definition, fault, rep, ref)
@@ -766,7 +863,14 @@ def _base_case(args):
            "classes": collections.Counter()}
     try:
         base = gen_base(rng, family)
+        calls = inspect_cost(base)
+        for _ in range(20):      # quick tier: definitions whose inspect() costs more than ~50 ms are redrawn
+            if tier != "quick" or calls <= 750:
+                break
+            base = gen_base(rng, family)
+            calls = inspect_cost(base)
         out["definition"] = base
+        out["inspect_calls"] = calls
         vs, rep, coq = judge(base, None, True)
         out["accepted"] = not rep
         out["base_report"] = sorted(rep.keys())
@@ -778,7 +882,7 @@ def _base_case(args):
         out["counts"]["definitions"] += 1
         muts = structural_mutants(base)
         nstruct = len(muts)
-        emuts = expression_mutants(base)
+        emuts = expression_mutants(base, tier, nstruct, calls)
         lmuts = late_mutants(base, rng, 2 if tier == "quick" else 6)
         # every structural and late mutant goes to the model as well; of the expression mutants a sample
         sample = set(rng.sample(range(len(emuts)), min(len(emuts), 6 if tier == "quick" else 24)))
@@ -786,16 +890,13 @@ def _base_case(args):
         allm = [(m, f, True) for m, f in muts] + [(m, f, k in sample) for k, (m, f) in enumerate(emuts)] \
             + [(m, f, k in lsample) for k, (m, f) in enumerate(lmuts)]
         for m, f, want_coq in allm:
-            try:
-                vs, rep, coq = judge(m, f, want_coq)
-            except Exception:
-                out["violations"].append({"what": "inspection of a schema-conformant mutant raised", "kind": "raised",
-                                          "definition": m, "fault": f, "error": traceback.format_exc()[-1500:]})
-                continue
+            vs, rep, coq = judge(m, f, want_coq)
             out["counts"]["definitions"] += 1
             out["classes"][f["class"]] += 1
             if rep.get("syntax"):
                 out["counts"]["mutant_not_schema_conformant"] += 1
+            if rep.get("raised"):
+                out["counts"]["inspect_raised"] += 1
             for v in vs:
                 v.update({"definition": m, "fault": f})
                 out["violations"].append(v)
@@ -804,13 +905,48 @@ def _base_case(args):
         out["counts"]["structural"] = nstruct
         out["counts"]["expression"] = len(emuts)
         out["counts"]["late"] = len(lmuts)
-        out["violations"] = out["violations"][:20]
+        # keep every class visible: unknown violations first; of the known candidates a few and their counts
+        unknown, known, kcount = [], [], collections.Counter()
+        for v in out["violations"]:
+            k = _classify_known(v)
+            if k:
+                v["known"] = k
+                kcount[k] += 1
+                if kcount[k] <= 2:
+                    known.append(v)
+            else:
+                unknown.append(v)
+        out["violations"] = unknown[:20] + known
+        out["known_counts"] = dict(kcount)
     except Exception:
         out["error"] = traceback.format_exc()[-2500:]
     return out
 
 
 # ------------------------------------------------------------- accepted => executable
+
+DONE = ("succeeded", "failed", "timeout", "abandoned", "canceled")
+
+
+def _pointed(state, t, r):
+    st = state["state"]["state"]
+    idx = st["tasks"].get("%s__r%s" % (t, r))
+    if idx is None or idx >= len(st["sequence"]):
+        return None
+    return st["sequence"][idx]
+
+
+def _rerun_of_active(sess, t, r, upto):
+    """an accepted rerun before step `upto` re-created the execution (t, r) while its record was still active"""
+    for j in range(1, upto):
+        op, obs = sess.trace[j]
+        if op[0] == "rerun" and obs["raised"] is None:
+            before = _pointed(sess.trace[j - 1][1], t, r)
+            after = _pointed(obs, t, r)
+            if before is not None and before.get("status") not in DONE and after is not None and "status" not in after:
+                return True
+    return False
+
 
 def exec_monitor(sess):
     vs = []
@@ -820,8 +956,22 @@ def exec_monitor(sess):
             continue
         if r[0] in REFUSALS.get(op[0], ()):
             continue
-        vs.append({"what": "%s escaped the conformant call %s on an accepted definition" % (r[0], op[0]),
-                   "step": i, "raised": r, "kind": "internal-error"})
+        v = {"what": "%s escaped the conformant call %s on an accepted definition" % (r[0], op[0]),
+             "step": i, "raised": r, "kind": "internal-error"}
+        if op[0] == "event" and i > 0:
+            v["event_task"] = op[1]
+            rec = _pointed(sess.trace[i - 1][1], op[1], op[2])
+            v["record_without_status"] = rec is not None and "status" not in rec
+            v["rerun_of_active_execution"] = _rerun_of_active(sess, op[1], op[2], i)
+            v["d8_trigger"] = bool(findings.TRIGGERS["D8"](sess, i))
+            stg = [x for x in sess.trace[i - 1][1]["state"]["state"]["staged"]
+                   if x["id"] == op[1] and x["route"] == op[2]]
+            v["staged_entry"] = bool(stg)
+            v["staged_items"] = bool(stg) and "items" in stg[0]
+            v["item_event"] = op[3][0] == "item"
+            v["event_status"] = op[3][2] if op[3][0] == "item" else op[3][1]
+            v["pre_status"] = rec.get("status") if rec else None
+        vs.append(v)
         break
     return vs
 
@@ -879,7 +1029,7 @@ def _exec_case(args):
 
 def run(ctx):
     tier, seed = ctx["tier"], ctx["seed"]
-    nbase = 40 if tier == "quick" else 480
+    nbase = 32 if tier == "quick" else 400
     nexec = 320 if tier == "quick" else 6000
     base = (seed * 1000003 + zlib.crc32(b"C15")) % (2 ** 31)
     known_ids = [k["id"] for k in ctx["known"].get("findings", []) if "C15" in k.get("properties", [])]
@@ -888,10 +1038,12 @@ def run(ctx):
     jobs = [(base + i, BASE_FAMILIES[i % len(BASE_FAMILIES)], tier) for i in range(nbase)]
     ejobs = [(base + 10 ** 6 + i, ctx["model_ok"], known_ids,
               "progs" if i % 4 else ["mixed", "cycles", "commands", "diamonds"][(i // 4) % 4]) for i in range(nexec)]
+    t_start = time.time()
     with multiprocessing.Pool(16) as pool:
-        eres_async = pool.map_async(_exec_case, ejobs, chunksize=4)
-        results = pool.map(_base_case, jobs, chunksize=1)
-        eres = eres_async.get()
+        res_async = pool.map_async(_base_case, jobs, chunksize=1)
+        eres = pool.map(_exec_case, ejobs, chunksize=4)
+        results = res_async.get()
+    t_python = time.time() - t_start
     # (i) fault injection + reference
     counts, classes = collections.Counter(), collections.Counter()
     cases = []
@@ -930,6 +1082,7 @@ def run(ctx):
                                        "meaning": CODES.get(a[0], "?"), "coqc_tail": a[1]})
     else:
         out["correspondence_broken"] = {"reason": "coq/model/Inspect.vo is not built; the model was not compared"}
+    t_coq = time.time() - t_start - t_python
     if mismatches:
         out["correspondence_broken"] = {"cases_diverging": len(mismatches), "first": mismatches[0],
                                         "what": "Coq detectors and the real inspect() disagree"}
@@ -968,6 +1121,24 @@ def run(ctx):
         out["correspondence_broken"] = {"cases_diverging": len(divs), "what": "conductor model and engine diverge",
                                         "first": {"seed": d["seed"], "definition": d["definition"],
                                                   "inputs": d["inputs"], "ops": d["ops"], "divergence": d["divergence"]}}
+    hit = collections.Counter(v["known"] for v in out["violations"]
+                              if v.get("known") in KNOWN_CANDIDATES and v.get("kind") != "raised")
+    for r in results:
+        hit.update(r.get("known_counts") or {})
+    for kid in sorted(hit):
+        first = [v for v in out["violations"] if v.get("known") == kid][0]
+        out["known_lines"].append("%s %s (%d case(s) in this run; %s)"
+                                  % (kid, first["what"], hit[kid], (KNOWN_CANDIDATES[kid].__doc__ or "").split(":")[0]
+                                     .replace("\n", " ").strip()[:160]))
+    # keep one representative per known candidate in the evidence, drop the rest of the known ones
+    keep, seen_known = [], set()
+    for v in out["violations"]:
+        if v.get("known"):
+            if v["known"] in seen_known:
+                continue
+            seen_known.add(v["known"])
+        keep.append(v)
+    out["violations"] = keep
     real = [v for v in out["violations"] if not v.get("known")]
     if (out["correspondence_broken"] or not ctx["proof_ok"]) and not real:
         out["search"] = {"note": "the fault-injection monitor and the reference reading ran on all %d definitions, "
@@ -984,7 +1155,8 @@ def run(ctx):
     out["distribution"] = {"bases": len(results), "base_accepted": sum(1 for r in results if r.get("accepted")),
                            "families": dict(collections.Counter(r["family"] for r in results)),
                            "mutants_by_class": dict(classes), "counts": dict(counts),
-                           "model_cases": len(cases), "histories": dict(ecounts)}
+                           "model_cases": len(cases), "histories": dict(ecounts),
+                           "seconds": {"inspection_and_histories": round(t_python, 1), "coqc": round(t_coq, 1)}}
     out["rule"] = ("base definitions from harness.progs (all expression positions), the C14 graph-shape families and "
                    "island shapes; for each base every single-fault mutant: renamed target at every (task, transition, "
                    "do position), renamed declaration of every task, every task renamed to each engine command (with and "
